@@ -46,12 +46,12 @@ import falcon.uri as U
 # alphabets
 # --------------------------------------------------------------------------
 CLASSES = ('pct', 'plus', 'hexdig1', 'hexdig2', 'HEXUP', 'hexlow', 'nonhex', 'resv1', 'resv2',
-           'unresv1', 'unresv2', 'space', 'nul', 'u2', 'u3', 'u4', 'lf')
+           'unresv1', 'unresv2', 'space', 'nul', 'u2', 'u3', 'u4', 'lf', 'del')
 
 _SEED_SYMS = [
-    ('%', '+', '4', '1', 'A', 'f', 'G', '/', '?', '~', '-', ' ', '\x00', 'é', '€', '\U0001F600', '\n'),
-    ('%', '+', '5', '2', 'C', 'e', 'Z', ':', '&', '.', '_', ' ', '\x00', 'ß', '∑', '\U0001F642', '\n'),
-    ('%', '+', '3', '0', 'D', 'a', 'x', '#', '=', '-', '~', ' ', '\x00', 'ü', '中', '\U0001D11E', '\n'),
+    ('%', '+', '4', '1', 'A', 'f', 'G', '/', '?', '~', '-', ' ', '\x00', 'é', '€', '\U0001F600', '\n', '\x7f'),
+    ('%', '+', '5', '2', 'C', 'e', 'Z', ':', '&', '.', '_', ' ', '\x00', 'ß', '∑', '\U0001F642', '\n', '\x7f'),
+    ('%', '+', '3', '0', 'D', 'a', 'x', '#', '=', '-', '~', ' ', '\x00', 'ü', '中', '\U0001D11E', '\n', '\x7f'),
 ]
 
 
